@@ -7,7 +7,7 @@ hypothesis of `fair_terminates` is satisfiable): run the finishing schedule of
 set_option linter.unusedVariables false
 namespace PysphVerif.Controller
 
-set_option maxHeartbeats 4000000 in
+set_option maxHeartbeats 2000000 in
 /-- a solver step changes an interface thread only by waking it from `plock.wait()` -/
 theorem solver_th {s s' : State} {evs : List Ev} (u : Tid)
     (hw : ∀ v ∈ s.pWait, (s.th v).pc = IPc.wBlocked) (hu : (s.th u).pc ≠ IPc.wBlocked)
